@@ -327,6 +327,8 @@ def check_function(repo, folder, sink, func, label):
             blamed = True
         if not blamed:
             raise AnalysisError("internal: failing template without a blamed construct (%s)" % inst)
+    # ---- persistent module-level tables (memo tables): every state the code can put them in ------------
+    n_eval += state_scenarios(repo, folder, sink, func, label, prims + classes + arrays)
     # ---- arrays with an explicit size ---------------------------------------------------------
     params = func.params()
     if len(params) >= 2:
@@ -361,6 +363,58 @@ def check_function(repo, folder, sink, func, label):
             sink.check("strip-charset", "%s: %s" % (label, norm(n)), True, func, n, "",
                        detail="%s(%r) is a no-op or an exact prefix removal on all %d descriptor classes" % (n.func.attr, lit, n_eval))
     return n_eval
+
+
+def state_scenarios(repo, folder, sink, func, label, templates):
+    """When the function keeps results in a module-level table that it also empties / evicts from, the table can be in states
+    other than its initial one when the next call arrives.  Those states are computed (each class is evaluated with the table
+    grown by earlier calls, so that a 'table is full' branch is taken) and every class is evaluated again in each of them."""
+    probe = StringEval(repo, folder, func)
+    try:
+        probe.call([templates[0].desc])
+    except (Raised, NeedConcrete):
+        pass
+    if not any(g.persistent for g in probe.gstate.values()):
+        return 0
+    snapshots = {}
+    n = 0
+    for tmpl in templates:
+        ev = StringEval(repo, folder, func, size_mode="grown")
+        try:
+            ev.call([tmpl.desc])
+        except (Raised, NeedConcrete):
+            continue
+        removes = [e for e in ev.events if e[0] == "state-remove"]
+        if not removes:
+            continue
+        for key, g in ev.gstate.items():
+            if g.persistent and any(e[2] == g.gname for e in removes):
+                kept = frozenset(str(k) for k in g if k in g.initial_keys)
+                snapshots.setdefault((key, kept), (dict(g), [e[1] for e in removes if e[2] == g.gname][-1], tmpl))
+    for (key, kept), (content, rnode, cause) in sorted(snapshots.items(), key=lambda kv: (kv[0][0], sorted(kv[0][1]))):
+        sink.count("table_states")
+        lost = [str(k) for k in probe.gstate[key].initial_keys if str(k) not in kept] if key in probe.gstate else []
+        for tmpl in templates:
+            n += 1
+            ev = StringEval(repo, folder, func, initial_state={key: content})
+            try:
+                out = ev.call([tmpl.desc])
+            except Raised as r:
+                out = ("raised", r.node)
+            except NeedConcrete:
+                continue
+            ok = isinstance(out, SStr) and any(out == a for a in tmpl.accept)
+            wdesc, wacc = tmpl.witness()
+            cdesc, _ = cause.witness()
+            sink.check("persistent-state", "%s: %s %r after %s removed %s" % (label, tmpl.label, tmpl.desc, norm(rnode), key[1]),
+                       ok, func, rnode,
+                       "%s keeps results in the module-level table %s; a call such as %s(`%s`) that finds the table full executes `%s`, "
+                       "which also removes the initial entries %s; the next call %s(`%s`) then returns %s instead of %s"
+                       % (label, key[1], label, cdesc, norm(rnode), lost[:9], label, wdesc, _show_out(out, tmpl),
+                          " or ".join(repr(x) for x in wacc)),
+                       node=rnode, detail="table %s without %s: %r -> %r" % (key[1], lost[:9], tmpl.desc, out),
+                       witness=dict(first_call=cdesc, then=wdesc, expected=wacc))
+    return n
 
 
 def _show_out(out, tmpl):
